@@ -166,6 +166,18 @@ func (c *Ctx) provablyNonNil(fn *ssa.Function, v ssa.Value, b *ssa.BasicBlock) b
 		if !ok && o.Parent() == fn && guardedBy(fn, b, nonNilEdges(fn, sameValue(o))) {
 			ok = true
 		}
+		// a second load of the same field (v.err tested, then v.err returned)
+		if !ok && o.Parent() == fn {
+			if base, f, n := fieldLoad(o); f != "" {
+				same := func(x ssa.Value) bool {
+					b2, f2, n2 := fieldLoad(x)
+					return f2 == f && n2 == n && (b2 == base || sameOrigin(b2, base))
+				}
+				if guardedBy(fn, b, nonNilEdges(fn, same)) {
+					ok = true
+				}
+			}
+		}
 		if !ok {
 			return false
 		}
